@@ -272,7 +272,7 @@ func init() {
 				n = 30000
 			}
 			for i := 0; i < n; i++ {
-				ms := genStore(g.r, storeGenOpts{maxMetrics: 6})
+				ms := genStore(g.r, storeGenOpts{maxMetrics: 6, unsortedBuckets: true})
 				g.emit("prom", strconv.Itoa(g.r.intn(2)), strconv.Itoa(g.r.intn(2)), encodeStore(ms))
 			}
 		},
